@@ -51,7 +51,14 @@ type rState struct {
 	clients map[int]int64
 }
 
-func p64(s string) int64 { n, _ := strconv.ParseInt(s, 10, 64); return n }
+// p64: a decimal number; values of 2^63 and above (a uint64 field that wrapped below zero) come back negative.
+func p64(s string) int64 {
+	if n, err := strconv.ParseInt(s, 10, 64); err == nil {
+		return n
+	}
+	u, _ := strconv.ParseUint(s, 10, 64)
+	return int64(u)
+}
 
 func parseSP(tok string) rSP {
 	if tok == "S:-" {
@@ -253,6 +260,11 @@ func cause(op []string, prev *rState) string {
 			return op[0] + "-blobber"
 		}
 		return op[0] + "-validator"
+	case "shutby":
+		if b := prev.blobs[atoi(op[1])]; b != nil && b.dead {
+			return "reshut-blobber"
+		}
+		return "shut-blobber"
 	case "resp":
 		return "challenge-" + op[3]
 	case "commit":
@@ -307,6 +319,7 @@ func oracle(prop string) func(ops, outs []string) *corr.Violation {
 			vs = append(vs, viol{prop + ":" + sig, fmt.Sprintf("op %d %q: %s", i, ops[i], msg), i})
 		}
 		var prev *rState
+		mode := "1"
 		closed := map[int]bool{}     // allocations closed by a successful finalize/cancel
 		badCP := map[int]bool{}      // C12: allocations whose equality is already broken (report the breaking op only)
 		badAl := map[int]bool{}      // C13: blobbers whose Allocated already drifted
@@ -327,6 +340,9 @@ func oracle(prop string) func(ops, outs []string) *corr.Violation {
 				continue
 			}
 			if op[0] == "init" {
+				if len(op) == 3 {
+					mode = op[2]
+				}
 				prev = cur
 				closed, badCP, badAl, badOf = map[int]bool{}, map[int]bool{}, map[int]bool{}, map[int]bool{}
 				continue
@@ -337,6 +353,9 @@ func oracle(prop string) func(ops, outs []string) *corr.Violation {
 			}
 			okTx := len(status) > 0 && status[0] == "ok"
 			why := cause(op, prev)
+			if op[0] == "resp" && mode == "2" {
+				why += "-no-validators-rewarded" // num_validators_rewarded = 0: moveToValidators returns before the debit
+			}
 
 			switch prop {
 			case "C12":
@@ -347,6 +366,12 @@ func oracle(prop string) func(ops, outs []string) *corr.Violation {
 					var sum int64
 					for _, d := range a.bas {
 						sum += d.cv
+					}
+					for _, d := range a.bas {
+						if d.cv < 0 && !badCP[k] { // a value of 2^63 or more: the unchecked uint64 decrement wrapped
+							badCP[k] = true
+							add(i, "cv-underflow:"+map[bool]string{true: "extend", false: why}[op[0] == "upd"], fmt.Sprintf("allocation a%d: blobber b%d's challenge value is %d (2^64%d): decremented below zero", k, d.b, uint64(d.cv), d.cv))
+						}
 					}
 					if (!a.cpPresent || a.cp != sum) && !badCP[k] {
 						badCP[k] = true
@@ -504,6 +529,7 @@ func oracle(prop string) func(ops, outs []string) *corr.Violation {
 		}
 		// the replay carries the observations of THIS run (fresh), so that it replays identically on the model
 		fresh := make([]string, pick.at+1)
+		chain := ""
 		for i := 0; i <= pick.at; i++ {
 			op, _ := splitOp(ops[i])
 			st := outs[i]
@@ -512,8 +538,9 @@ func oracle(prop string) func(ops, outs []string) *corr.Violation {
 			}
 			if len(op) > 0 && op[0] == "init" {
 				fresh[i] = strings.Join(op, " ")
+				chain = chainNext("", fresh[i])
 			} else {
-				fresh[i] = record(op, st, outs[i])
+				fresh[i] = record(&chain, op, st, outs[i])
 			}
 		}
 		return &corr.Violation{Signature: pick.sig, Message: pick.msg, Ops: fresh, Impl: outs[:pick.at+1]}
